@@ -622,6 +622,7 @@ def r9(ctx, rep):
             if n.get("k") == "assign" and show(n["lhs"]).split(".")[-1] in ("unbound_expr", "context_strength"):
                 writers.add((f["path"].split("::", 1)[1], show(n["lhs"]).split(".")[-1], show(n["rhs"], maxdepth=6)))
     want = {("codegen::ast::write_within", "context_strength", "opt.context_strength.max(parent_strength)"),
+            ("codegen::ast::<ExprKind as WriteSource>::write", "context_strength", "10"),     # default value of a named parameter: read like an argument
             ("codegen::ast::<Expr as WriteSource>::write", "unbound_expr", "false"),          # after `alias = `
             ("codegen::ast::<ExprKind as WriteSource>::write", "unbound_expr", "true"),       # arguments of a function call
             ("codegen::WriteSource::write_between", "context_strength", "0"),                 # inside brackets
@@ -635,6 +636,60 @@ def r9(ctx, rep):
         rep.ok(f"layout-writer:{w[0]}:{w[1]}={w[2]}")
 
 
+def r10(ctx, rep):
+    rep.rule("C14.R10", "function definitions and interpolations are printed so that they read back: default values like arguments, a function body that is a function in parentheses, every field of an interpolated item", floor=3)
+    syn = ctx.syn
+    wk = [x for x in syn.find_fns("<ExprKind as WriteSource>::write", crate="prqlc")]
+    if len(wk) != 1:
+        raise AnchorMissing("<ExprKind as WriteSource>::write")
+    arm = None
+    for m in matches_of(wk[0]["body"]):
+        for a in m["arms"]:
+            if show(a["pat"]).startswith("Func("):
+                arm = a
+    if arm is None:
+        raise AnchorMissing("ExprKind::write: arm Func(c)")
+    bs = syn.fn("codegen::ast::binding_strength", crate="prqlc")
+    call_strength = None
+    for m in matches_of(bs["body"]):
+        for a in m["arms"]:
+            if "FuncCall" in show(a["pat"], maxdepth=5) and isinstance(lit_val(a["body"]), int):
+                call_strength = lit_val(a["body"])
+    # default values
+    dv = [n for n in walk(arm["body"]) if n.get("k") == "mcall" and n["m"] == "write" and "default" in show(n["r"], maxdepth=6)]
+    ok = False
+    for n in dv:
+        o = show(n["a"][0]) if n["a"] else ""
+        sets = {show(x["lhs"]).split(".")[-1]: show(x["rhs"]) for x in walk(arm["body"]) if x.get("k") == "assign" and show(x["lhs"]).startswith(o + ".")}
+        ok = sets.get("unbound_expr") == "true" and sets.get("context_strength", "").isdigit() and call_strength is not None and int(sets["context_strength"]) >= call_strength
+    rep.check(ok, "func:default-value", f"the default value of a named parameter is read by the parser as an expression that is not a call: it must be written with the context of a call argument "
+              f"(context_strength >= {call_strength}, unbound_expr) so that `a:(g 1)` keeps its parentheses", file=wk[0]["file"], line=arm["l"], fn=wk[0]["path"])
+    # body that is itself a function
+    okb = False
+    for n in walk(arm["body"]):
+        if n.get("k") == "if" and n["c"].get("k") == "macro" and n["c"]["n"] == "matches" and "body" in show(n["c"]["a"][0]) and "Func" in show(n["c"].get("pat"), maxdepth=4):
+            okb = any(x.get("k") == "mcall" and x["m"] == "write_between" and lit_val(x["a"][0]) == "(" for x in walk(n["t"]))
+    rep.check(okb, "func:body-is-func", "a function whose body is a function must write that body in parentheses (`x -> (y -> x + y)`): the parser reads a body as a call or an expression",
+              file=wk[0]["file"], line=arm["l"], fn=wk[0]["path"])
+    # interpolation items: every field of InterpolateItem::Expr is printed
+    di = syn.fn("codegen::ast::display_interpolation", crate="prqlc")
+    adt = syn.adt("InterpolateItem", crate="prqlc_parser", file_suffix="generic.rs")
+    fields = []
+    for v in adt.get("variants", []):
+        if v["name"] == "Expr":
+            fields = [f["name"] for f in v["fields"]]
+    okf = False
+    for m in matches_of(di["body"]):
+        for a in m["arms"]:
+            for alt in pat_alts(a["pat"]):
+                if alt.get("k") == "p_struct" and last_seg(alt["p"]) == "Expr":
+                    bound = {x[0]: x[1] for x in alt["f"]}
+                    used = [f for f in fields if f in bound and any(y.get("k") == "path" and y["p"] == show(bound[f]) for y in walk(a["body"]))]
+                    okf = bool(fields) and used == fields and not alt.get("rest")
+    rep.check(okf, "interpolation:fields", f"display_interpolation must print every field of InterpolateItem::Expr ({fields}); a `..` pattern drops the format specification of `f\"{{x:0.2}}\"`",
+              file=di["file"], line=di["l"], fn=di["path"])
+
+
 def disj_of(c):
     if c is not None and c.get("k") == "bin" and c["op"] == "||":
         return disj_of(c["lhs"]) + disj_of(c["rhs"])
@@ -644,5 +699,5 @@ def disj_of(c):
 
 
 def run(ctx, rep):
-    for r in (r1, r2, r3, r4, r5, r7, r8, r9):
+    for r in (r1, r2, r3, r4, r5, r7, r8, r9, r10):
         rep.guard(r, ctx)
